@@ -10,6 +10,7 @@ import (
 	"reflect"
 	"strings"
 	"sync"
+	"sync/atomic"
 
 	pb "github.com/jamf/regatta/regattapb"
 	"google.golang.org/grpc/encoding"
@@ -96,6 +97,8 @@ type codecEnv struct {
 	types  []protoreflect.MessageType
 	byName map[string]protoreflect.MessageType
 	bigMax int
+
+	staleNoted atomic.Bool
 
 	mu    sync.Mutex
 	feats map[string]struct{}
@@ -304,7 +307,7 @@ func (e *codecEnv) runCodecCase(c codecCase) {
 
 	// pattern "loop": one pooled object, ResetVT before each receive (snapshot.Reader.WriteTo)
 	{
-		o := get()
+		o := e.fromPool(get)
 		prev := prevOf(o)
 		bufA := append([]byte{}, encA...)
 		o.ResetVT()
@@ -334,7 +337,7 @@ func (e *codecEnv) runCodecCase(c codecCase) {
 	}
 	// pattern "per call": FromVTPool, receive, ReturnToVTPool (snapshot.Reader.Read)
 	{
-		o := get()
+		o := e.fromPool(get)
 		prev := prevOf(o)
 		bufA := append([]byte{}, encA...)
 		if err := e.codec.Unmarshal(bufA, o); err != nil {
@@ -345,7 +348,7 @@ func (e *codecEnv) runCodecCase(c codecCase) {
 		p1 := reflect.ValueOf(o).Pointer()
 		remember(o, "A")
 		o.ReturnToVTPool()
-		o2 := get()
+		o2 := e.fromPool(get)
 		prev2 := prevOf(o2)
 		same := reflect.ValueOf(o2).Pointer() == p1
 		bufB := append([]byte{}, encB...)
@@ -390,6 +393,44 @@ func dropEmptyRangeEnd(orig, got *pb.Command) {
 			dropEmptyRangeEnd(orig.Sequence[i], got.Sequence[i])
 		}
 	}
+}
+
+// fromPool takes an object from the vtproto pool and looks at the state it arrives in. Every object
+// this driver returns went through ReturnToVTPool with its full content, so all elements of its
+// Sequence backing array are reset. Other users of the same pool in this process (the replication
+// worker's proposeBatch truncates seq.Sequence to [:0] BEFORE ReturnToVTPool, so ResetVT never
+// sees the commands it appended) can hand back an object whose backing array still references live,
+// non-reset commands; a later decode would merge into them. No regatta code decodes into pooled
+// Commands, which object the pool hands to whom is schedule dependent, and the contamination is
+// not an act of the codec: it is recorded as an observation (evidence counter + note), the stale
+// slots are dropped, and the case goes on deterministically.
+func (e *codecEnv) fromPool(get func() pooledMsg) pooledMsg {
+	o := get()
+	c, ok := o.(*pb.Command)
+	if !ok {
+		return o
+	}
+	full := c.Sequence[:cap(c.Sequence)]
+	stale := 0
+	for i, el := range full {
+		if el != nil && !commandIsReset(el) {
+			full[i] = nil
+			stale++
+		}
+	}
+	if stale > 0 {
+		e.r.Count("observed_not_judged_pooled_commands_arriving_with_live_sequence_elements", 1)
+		if e.staleNoted.CompareAndSwap(false, true) {
+			e.r.Note(fmt.Sprintf("observed, not judged: a Command taken from the vtproto pool arrived with %d live (non-reset) commands in the backing array of its sequence field, "+
+				"left there by another user of the pool in this process (replication worker proposeBatch: seq.Sequence = seq.Sequence[:0] before ReturnToVTPool); decoding a sequence into it would merge into them", stale))
+		}
+	}
+	return o
+}
+
+func commandIsReset(c *pb.Command) bool {
+	return len(c.Table) == 0 && c.Type == 0 && c.Kv == nil && c.LeaderIndex == nil && len(c.Batch) == 0 && c.Txn == nil &&
+		len(c.RangeEnd) == 0 && !c.PrevKvs && len(c.Sequence) == 0 && !c.Count
 }
 
 func shortSummary(m proto.Message) string {
